@@ -76,6 +76,18 @@ let handle (line : string) : string =
   match split_on ' ' line with
   | ["G"; items] -> gated (split_on ';' items)
   | "R" :: _ -> "R ok"
+  | ["W"; status; reason; fields; body] ->
+    (* the model's serialisation with the fields in the order given, and where its first blank line is *)
+    let un h = if h = "-" then [] else bytes_of_hex h in
+    let ascii s = List.init (String.length s) (fun i -> n_of_int (Char.code s.[i])) in
+    let sl = ascii "HTTP/1.1 " @ ascii status @ ascii " " @ un reason in
+    let kvs = if fields = "-" then [] else List.map (fun kv -> match split_on '=' kv with
+        | [k; v] -> (un k, un v) | [k] -> (un k, []) | _ -> ([], [])) (split_on ',' fields) in
+    let w = wire sl (List.map field_line kvs) (un body) in
+    let crlf2 = [n_of_int 13; n_of_int 10; n_of_int 13; n_of_int 10] in
+    (match find_pat crlf2 w with
+     | Some (h, b) -> Printf.sprintf "%s head=%d body=%s" (hex_of_bytes w) (List.length h) (hex_of_bytes b)
+     | None -> hex_of_bytes w ^ " head=none")
   | _ -> "BADCASE"
 
 let () = run_cases handle
